@@ -17,6 +17,7 @@ EXTENDS KVDefs
 CONSTANTS TKeys,       \* keys used through the tables (byte strings; includes the empty key)
           Vals,        \* values written through tables
           Noise,       \* further raw keys, written only directly
+          RTKeys,      \* table keys whose raw keys are also written directly (subset of TKeys)
           Cfgs,        \* sequence of [p1, p2, nested]
           MaxBatch, MaxDepth,
           InitsOf(_),  \* designed initial states of a configuration: records [raw, bt, batch, bw, snap]
@@ -38,6 +39,7 @@ View == <<cfg, raw, bt, batch, bw, snap>>
 CfgSeq == Cfgs
 TKeySet == TKeys
 NoiseSet == Noise
+RTKeySet == RTKeys
 TITab == TIterTable
 TProbes == TProbeKeys
 CfgIds == DOMAIN CfgSeq
@@ -48,6 +50,8 @@ SortedRaw == [c \in CfgIds |-> SortKeys(RawKeysOf[c])]
 \* the keys a table can show: the raw keys with its prefix, stripped
 TDomOf == [c \in CfgIds |-> [t \in 1..2 |-> {StripPrefix(rk, P(c, t)) : rk \in {r \in RawKeysOf[c] : HasPrefix(r, P(c, t))}}]]
 SortedT == [c \in CfgIds |-> [t \in 1..2 |-> SortKeys(TDomOf[c][t])]]
+\* raw keys that rput / rdel write directly
+RawWritable == [c \in CfgIds |-> {P(c, t) \o k : t \in 1..2, k \in RTKeySet} \cup NoiseSet]
 TRangeIdx == [c \in CfgIds |-> [t \in 1..2 |-> RangeIndex(SortedT[c][t], TITab)]]
 
 \* the table view: restriction of the store to the prefix, prefix stripped
@@ -153,7 +157,7 @@ Goto(s) ==
 Next ==
   \/ \E t \in 1..2, k \in TKeySet, v \in Vals : TPut(t, k, v) \/ TBPut(t, k, v)
   \/ \E t \in 1..2, k \in TKeySet : TDelete(t, k) \/ TBDelete(t, k)
-  \/ \E rk \in RawKeysOf[cfg] : RPut(rk) \/ RDelete(rk)
+  \/ \E rk \in RawWritable[cfg] : RPut(rk) \/ RDelete(rk)
   \/ TBWrite \/ TBReset \/ TBDrop
   \/ \E t \in 1..2, target \in {"store", "batch"} : TBReplay(t, target)
   \/ \E t \in 1..2 : TSnap(t) \/ Compact(t)
